@@ -228,4 +228,6 @@ MUTANTS = [
  dict(id="C20", name="coarse_update_drops_fine_bit", edits=[(MM, "                values[ind] = (val<<7)|(values[ind]&0x7f);\n            else\n                values[ind] = val|(values[ind]&0x3f80);\n            callbacks", "                values[ind] = (val<<7)|(values[ind]&0x3f);\n            else\n                values[ind] = val|(values[ind]&0x3f80);\n            callbacks")]),
  dict(id="C20", name="fine_update_clears_coarse_low_bit", edits=[(MM, "                values[ind] = val|(values[ind]&0x3f80);\n            callbacks", "                values[ind] = val|(values[ind]&0x3f00);\n            callbacks")]),
  dict(id="C20", name="clone_values_forgets_fine_part", edits=[(MM, "                if(coarse_dest)\n                    values[ind_dest] = (val<<7)|(values[ind_dest]&0x7f);\n                else\n                    values[ind_dest] = val|(values[ind_dest]&0x3f80);\n            }\n        }\n    }\n}", "                if(coarse_dest)\n                    values[ind_dest] = (val<<7)|(values[ind_dest]&0x7f);\n            }\n        }\n    }\n}")]),
+
+ dict(id="C13", name="directory_lookup_without_slash", edits=[(SF, "        const Port* port = ports.apropos(is_leaf_level\n                                         ? cur_portname.c_str()\n                                         : (cur_portname + '/').c_str());", "        const Port* port = ports.apropos(cur_portname.c_str());")]),
 ]
